@@ -168,6 +168,24 @@ def run_tlc(module, cfg_text, workdir, env=None, workers=16, timeout=1800,
     return res
 
 
+def run_tlapm(module, workdir, timeout=900):
+    """check the proofs of spec/<module>.tla with the TLA+ proof system; -> number of obligations proved.
+    Any unproved obligation / tool failure is a machinery error (a proof is part of the specification)."""
+    os.makedirs(workdir, exist_ok=True)
+    for f in os.listdir(SPEC):
+        if f.endswith(".tla"):
+            shutil.copy(os.path.join(SPEC, f), workdir)
+    try:
+        p = subprocess.run(["tlapm", "--nofp", module + ".tla"], cwd=workdir, capture_output=True, text=True, timeout=timeout)
+    except (OSError, subprocess.TimeoutExpired) as e:
+        raise MachineryError("tlapm %s: %s" % (module, e))
+    out = p.stdout + p.stderr
+    m = re.search(r"All (\d+) obligations? proved", out)
+    if p.returncode != 0 or not m:
+        raise MachineryError("tlapm %s: proof not accepted\n%s" % (module, out[-1500:]))
+    return int(m.group(1))
+
+
 def cfg(spec=None, init=None, next_=None, constants=None, invariants=(),
         properties=(), constraints=(), action_constraints=(), post=None,
         view=None, deadlock=None):
